@@ -1,7 +1,8 @@
 /- Line-protocol driver for C02 (cross-reference resolution). -/
 import PdfVerif.Spec.Xref
+import PdfVerif.Spec.XrefWrite
 
-open PdfVerif PdfVerif.Xref
+open PdfVerif PdfVerif.Xref PdfVerif.Gen.Xref
 
 structure St where
   data : Bytes := []
@@ -10,6 +11,7 @@ structure St where
   hist : History := []
   ends : List (Nat × Nat) := []
   doc : Option (List (Xref.Section × Trailer)) := none
+  items : List Item := []
 
 def hexNat (s : String) : Option Nat :=
   s.toList.foldl (fun acc c => match acc, hexVal c with
@@ -94,7 +96,31 @@ def xrefsOf (st : St) : List Xref.Section := (st.doc.getD []).map (·.1)
 def openDoc (st : St) (bufsiz : Nat) : Except Err (List (Xref.Section × Trailer)) :=
   match findXref bufsiz st.data with
   | .error e => .error e
-  | .ok pos => readXrefFrom ⟨st.data, st.secs, st.objs⟩ (st.secs.length + 2) pos []
+  | .ok pos =>
+    match readXrefFrom ⟨st.data, st.secs, st.objs⟩ (st.secs.length + 2) pos ([], []) with
+    | .ok r => .ok r.1
+    | .error e => .error e
+
+def parseTEntry (s : String) : Option TEntry :=
+  match s.splitOn "/" with
+  | [p, g, u] =>
+    match p.toNat?, g.toNat? with
+    | some p, some g => if u == "n" then some ⟨p, g, true⟩ else if u == "f" then some ⟨p, g, false⟩ else none
+    | _, _ => none
+  | _ => none
+
+def parseSub (s : String) : Option Sub :=
+  match s.splitOn ":" with
+  | [a, ws, wc, es] =>
+    match a.toNat?, ws.toNat?, wc.toNat?, (if es == "-" then some [] else (es.splitOn ",").mapM parseTEntry) with
+    | some a, some ws, some wc, some es => some ⟨a, ws, wc, es⟩
+    | _, _, _, _ => none
+  | _ => none
+
+def parseRow (s : String) : Option Row :=
+  match (s.splitOn "/").mapM (·.toNat?) with
+  | some [a, b, c] => some (a, b, c)
+  | _ => none
 
 def step (st : St) (line : String) : St × String :=
   match words line with
@@ -190,6 +216,41 @@ def step (st : St) (line : String) : St × String :=
         | .ok (offs, tp) => s!"ok {tp} {showOffs offs}"
         | .error e => "E " ++ showErr e)
     | none => (st, "bad-op")
+  | ["q.render", eol, ee, subs] =>
+    let eol? : Option LineEol := if eol == "lf" then some .lf else if eol == "crlf" then some .crlf else if eol == "cr" then some .cr else none
+    let ee? : Option EntEol := if ee == "splf" then some .spLf else if ee == "crlf" then some .crLf else if ee == "spcr" then some .spCr else none
+    match eol?, ee?, (if subs == "-" then some [] else (subs.splitOn ";").mapM parseSub) with
+    | some eol, some ee, some subs => (st, hexOrDash (renderTable eol ee subs))
+    | _, _, _ => (st, "bad-op")
+  | ["q.encrows", w, rows] =>
+    match csvNat w, (if rows == "-" then some [] else (rows.splitOn ",").mapM parseRow) with
+    | some [w1, w2, w3], some rows => (st, hexOrDash (encodeRows w1 w2 w3 rows))
+    | _, _ => (st, "bad-op")
+  | ["item", "l", h] =>
+    match bytesOfHex h with
+    | some b => ({ st with items := st.items ++ [.line b] }, "ok")
+    | none => (st, "bad-op")
+  | ["item", "o", n, g, hl, body] =>
+    match n.toNat?, g.toNat?, bytesOfHex hl, bytesOfHex body with
+    | some n, some g, some hl, some body => ({ st with items := st.items ++ [.obj n g hl body] }, "ok")
+    | _, _, _, _ => (st, "bad-op")
+  | ["q.itemsok"] =>
+    -- hypothesis of C02_fallback for this file: body = items, rest = tail starting with the trailer line
+    let ends := st.ends.filterMap (fun (p, e) =>
+      match lookupNat st.objs p with
+      | some (_, _, v) => some (p, e, v)
+      | none => none)
+    let body := itemsBytes st.items
+    let tail := st.data.drop body.length
+    let okBytes := st.data.take body.length == body
+    let okTail := match takeLine tail with
+      | some (l, _) => startsWith l kwTrailer
+      | none => false
+    let spec := scanSpec 0 st.items []
+    let agree := match fallbackLoad st.data ends with
+      | .ok (offs, tp) => offs == spec && tp == some body.length
+      | .error _ => false
+    (st, s!"{itemsOKb ends 0 st.items tail} {okBytes} {okTail} {agree}")
   | ["q.fallback"] =>
     let ends := st.ends.filterMap (fun (p, e) =>
       match lookupNat st.objs p with
